@@ -467,6 +467,14 @@ def rule_kvcodec(program, ctx, prop=P, rid="C04.kvcodec"):
                 ctx.ok(rid, c, "packb(use_bin_type=True): bytes and str stay distinct")
             else:
                 ctx.bad(finding_at(prop, rid, c, "packb without use_bin_type=True: str and bytes are merged on disk"))
+    # a custom (ext) codec must be its own inverse: signedness of to_bytes / from_bytes
+    packs = [c for c in ast.walk(kv.tree) if isinstance(c, ast.Call) and isinstance(c.func, ast.Attribute) and c.func.attr == "to_bytes" and any(k.arg == "signed" and isinstance(k.value, ast.Constant) and k.value.value is True for k in c.keywords)]
+    unpacks = [c for c in ast.walk(kv.tree) if isinstance(c, ast.Call) and isinstance(c.func, ast.Attribute) and c.func.attr == "from_bytes"]
+    for u in unpacks:
+        signed = any(k.arg == "signed" and isinstance(k.value, ast.Constant) and k.value.value is True for k in u.keywords)
+        fn_u = next((a for a in ancestors(u) if isinstance(a, ast.FunctionDef)), None)
+        if packs and not signed and fn_u is not None and any(isinstance(k, ast.keyword) and k.arg == "ext_hook" and dotted(k.value) == fn_u.name for c in ast.walk(kv.tree) if isinstance(c, ast.Call) for k in c.keywords):
+            ctx.bad(finding_at(prop, rid, u, "integers are packed with to_bytes(..., signed=True) but unpacked with int.from_bytes(...) unsigned: a negative value comes back as a large positive one"))
 
 
 def rule_http(program, ctx):
@@ -548,6 +556,17 @@ def rule_encoder(program, ctx, prop=P, rid="C04.encoder"):
             ctx.bad(finding_at(prop, rid, c, "json_dumps is implemented with value-changing options"))
     if not n:
         raise AnalysisError("util.json_dumps encoders not found")
+    # what is read back from the tags column is decoded by the decoder that parsed the event at admission
+    for mq in ("nostr_relay.storage.db",):
+        for c in ast.walk(program.module(mq).tree):
+            if isinstance(c, ast.Call):
+                for k in c.keywords:
+                    if k.arg == "json_deserializer":
+                        if dotted(k.value) in ("json_loads", "util.json_loads", "json.loads"):
+                            ctx.ok(rid, c, "engine json_deserializer = json_loads (the admission decoder)")
+                        else:
+                            ctx.bad(finding_at(prop, rid, k.value, f"the engine decodes the stored tags with `{ast.unparse(k.value)[:40]}`, not with the decoder the event was admitted through: numbers "
+                                               "(big integers, floats) can come back as different values - the served event no longer hashes to its id"))
     # the tags column is serialised by the same encoder
     init = program.func("nostr_relay.storage.db:DBStorage.setup") if program.func_opt("nostr_relay.storage.db:DBStorage.setup") else None
     for q in ("nostr_relay.storage.db:DBStorage.setup", "nostr_relay.storage.db:DBStorage.__init__"):
